@@ -10,5 +10,5 @@ CONSTANTS
   PPub = {}
 INVARIANTS ConformFF ConformCreate ConformTx ConformDone TxSpendsAll TxNoDust TxWithinBudget
   FFMonotone FFBelowEnd FFAboveFloor FFCeilAtWidth FFCeilByDeadline FFShape
-  PubFeeLeBudget PubRateLeMax PubRateLeCeil PubNoDust PubSomeOutput PubMonotone PubAboveFloor PubFeeExact PubCeilByDeadline
+  PubFeeLeBudget PubRateLeMax PubRateLeCeil PubNoDust PubSomeOutput PubMonotone PubAboveFloor PubFeeExact PubCeilByDeadline RegroupStart RegroupNoDecrease PubRegroupNoDecrease
 CHECK_DEADLOCK TRUE
